@@ -289,7 +289,16 @@ func (c *Client) Resume() error {
 	// for example.
 	if c.PostResumeHook != nil {
 		err = c.PostResumeHook()
+		if err != nil {
+			return err
+		}
 	}
+
+	// Start the keepalive go routine
+	keepaliveQuit := make(chan struct{})
+	go keepalive(c.transport, c.config.KeepaliveInterval, keepaliveQuit)
+	// Start the receiver go routine
+	go c.recv(keepaliveQuit)
 	return err
 }
 
